@@ -23,12 +23,12 @@ func genC12(e *emitter, tier string, seed int64) {
 	rng := rand.New(rand.NewSource(seed))
 	obs := "\np(get_key(message), get_key(a), get_key(b), get_key(c), get_key(pl_msg), get_key(out), get_key(k))\n"
 	mkpt := func(msg string) pointSpec {
-		return pointSpec{Meas: "m", Time: 1600000000000000000, Fields: []fieldSpec{{"message", "str", msg}, {"n", "int", "12345"}, {"fl", "float", "4612811918334230528"}, {"nl", "nil", ""}},
+		return pointSpec{Meas: "m", Time: 1600000000000000000, Fields: []fieldSpec{{"message", "str", msg}, {"n", "int", "12345"}, {"fl", "float", "4612811918334230528"}, {"nl", "nil", ""}, {"bigf", "float", "4702623120467427328"}, {"tinyf", "float", "4544132024016830464"}, {"epochf", "float", "4744658828371427328"}},
 			Tags: [][2]string{{"tg", "127.0.0.1 GET"}}}
 	}
 	// ---- grok: capture types, trim flag, subjects, pattern scopes ----
 	// (nl: a field holding nil, nv: a variable holding nil - present subjects whose string form is empty)
-	subjects := []string{"_", "message", "tg", "n", "fl", "nosuch", "v", `"message"`, "nl", "nv"}
+	subjects := []string{"_", "message", "tg", "n", "fl", "nosuch", "v", `"message"`, "nl", "nv", "bigf", "tinyf"}
 	patterns := []string{
 		`%{IP:a} %{WORD:b}`, `%{NUMBER:a:int} %{NUMBER:b:float}`, `%{WORD:a:str} %{WORD:b:bool}`, `%{MYPAT:a}`, `%{INNER:a} %{WORD:b}`,
 		`(?P<a>\\d+)`, `%{NOSUCHPATTERN:a}`, `%{NUMBER:a:int}`, `\\s*%{WORD:a}\\s*`, `%{DATA:a} %{GREEDYDATA:b}`, `%{NUMBER:message}`,
@@ -86,7 +86,7 @@ func genC12(e *emitter, tier string, seed int64) {
 			}
 		}
 	}
-	for _, call := range []string{"default_time(nl)", "default_time(nl, \"+8\")", "nv = nil\ndefault_time(nv)", "j = load_json(\"{\\\"t\\\": null}\")\nadd_key(jt, j[\"t\"])\ndefault_time(jt)", "default_time(n)", "default_time(nosuch)", "default_time(tg)", "default_time(fl)", "v = \"2021-03-15T00:08:10Z\"\ndefault_time(v)"} {
+	for _, call := range []string{"default_time(epochf)", "default_time(epochf, \"UTC\")", "default_time(bigf, \"+8\")", "default_time(nl)", "default_time(nl, \"+8\")", "nv = nil\ndefault_time(nv)", "j = load_json(\"{\\\"t\\\": null}\")\nadd_key(jt, j[\"t\"])\ndefault_time(jt)", "default_time(n)", "default_time(nosuch)", "default_time(tg)", "default_time(fl)", "v = \"2021-03-15T00:08:10Z\"\ndefault_time(v)"} {
 		emitSimple(e, call+obs, mkpt("x"), "default_time", call)
 	}
 	// ---- datetime ----
